@@ -34,12 +34,15 @@ TRUSTED = ['Model.Py / Model.Bits / Model.Poly model CPython ints, lists and the
            'props/parts/desref.py as rendering of FIPS 46-3 (validated against published vectors)']
 ASSUMPTIONS = ['the key is handed over as in tests/test_des.py: Bits(K,64) of an 8-byte string, KT[r] = table_rKT(r,bK)[1]',
                'python -O (asserts stripped) is out of scope']
-LEVEL_TEXT = ('Lean 4 theorems: the key-independent tables of the model are exactly what the real generators return (kernel evaluation of '
-              'the mirrored generators against values re-extracted on every run); for every key every generated T-box is a total byte map, '
-              'bypass tables are the identity and T-box entries are S_n(chunk xor k_{r,n}) || bypass bits by construction; correspondence '
-              'stream per generated network with an independent reference DES and symbolic layout equations.')
-LEVEL_NOTE = ('Trusted: Lean kernel, Spec.Des / desref as renderings of the standard, translator and correspondence harness. The end-to-end '
-              'equation wbEnc = DES.enc for all keys and blocks is proved only as far as Proofs/C18.lean states; the rest is sampled.')
+LEVEL_TEXT = ('Lean 4 theorems: wb_enc_eq_des — for every 8-byte key and every message, generating the table network and running '
+              'WhiteDES.enc returns exactly what DES(K).enc returns in the model (ciphertext or the same AssertionError); round_refines — one '
+              'network round on the encoded state is one Feistel round, for every key/round/halves; for every key every generated T-box is a '
+              'total byte map, bypass tables are the identity, T-box entries are S_n(chunk xor k_{r,n}) || bypass bits; the key-independent '
+              'tables of the model are exactly what the real generators return (kernel evaluation against values re-extracted on every run) '
+              'and satisfy the layout identities M1 = layout o IP, M3 o layout = IPinv o swap, M2 rows gather R_j or L_j xor S_P(j); '
+              'correspondence stream per generated network with an independent reference DES and symbolic layout equations.')
+LEVEL_NOTE = ('Trusted: Lean kernel, translator and correspondence harness (the tie model <-> code), Model.Bits/Model.Poly/Model.Py as models of '
+              'the plumbing. The theorem is model-to-model (Model.Wb = Model.Des); Model.Des = FIPS 46-3 is property C02.')
 TECHNIQUE = 'Lean 4 proof (kernel evaluation of closed table generators, structural proofs for all keys) + correspondence check'
 LINE_TIMEOUT = 120
 
@@ -327,17 +330,17 @@ def cases(tier, rng):
     yield 'wb.encs %s %s' % (hx(k0), hx(rb(rng, 8 * 3 + 7))), 'badblocksize'   # trailing 7-byte block
     # generated networks
     nr = 8 if q else 32
-    for _ in range(3 if q else 60):
+    for _ in range(5 if q else 60):
         k = rb(rng, 8)
         yield from network(k, rng, nr, 'key.random')
         yield 'wb.static %s' % hx(k), 'static'
     for k in R.WEAK: yield from network(k, rng, nr, 'key.weak')
     semi = list(R.SEMIWEAK)
-    if q: semi = rng.sample(semi, 3)
+    if q: semi = rng.sample(semi, 5)
     for k in semi: yield from network(k, rng, nr, 'key.semiweak')
     for k in (bytes(8), b'\xff' * 8): yield from network(k, rng, nr, 'key.parity-of-weak')
     bitsel = list(range(64))
-    if q: bitsel = sorted(rng.sample(range(64), 3) + [8 * rng.randrange(8) + 7])     # 3 key bits + 1 parity bit
+    if q: bitsel = sorted(set(rng.sample(range(64), 5) + [8 * rng.randrange(8) + 7]))     # 5 key bits + 1 parity bit
     for i in bitsel:
         yield from network((1 << (63 - i)).to_bytes(8, 'big'), rng, nr if not q else 2, 'key.singlebit')
     for _ in range(1 if q else 20):
